@@ -85,4 +85,62 @@ theorem mtdec_flag_never_leaks (cfg : Cfg) (blocks : List Block) (hwf : WFInput 
   let e := (GInv2.reachable hwf hr).err hx
   e.e1 (e.e2 hp)
 
+-- ---------------------------------------------------------------------------------------------
+-- non-vacuity: the hypotheses are satisfiable and multi-Block states with several workers in flight are reachable
+-- ---------------------------------------------------------------------------------------------
+
+theorem reachable_of_run {cfg : Cfg} {blocks : List Block} : ∀ (ls : List Label) {s s' : State},
+    Reachable cfg blocks s → run s ls = some s' → Reachable cfg blocks s'
+  | [], s, s', hr, h => by simp only [run, Option.some.injEq] at h; exact h ▸ hr
+  | l :: ls, s, s', hr, h => by
+    simp only [run] at h
+    split at h
+    · rename_i s1 hs1; exact reachable_of_run ls (Reachable.step l hr hs1) h
+    · cases h
+
+/-- Two good threaded Blocks (3 and 2 bytes of output) followed by Index + Footer. -/
+def exBlocks : List Block :=
+  [{ kind := .thr, inSize := 8, needIn := 8, data := [1, 2, 3], ret := END, memThr := 10, memOut := 5 },
+   { kind := .thr, inSize := 4, needIn := 4, data := [4, 5], ret := END, memThr := 10, memOut := 5 },
+   { kind := .sync, ret := END }]
+
+def exCfg : Cfg := { threadsMax := 2, memLimit := 100 }
+
+example : WFInput exBlocks := by
+  intro b hb
+  simp only [exBlocks, List.mem_cons, List.mem_nil_iff, or_false] at hb
+  rcases hb with rfl | rfl | rfl <;> simp [Block.WF, END, OK, TIMED_OUT]
+
+/-- A schedule that starts both Blocks before the first worker has decoded anything: both workers running, two outbufs queued. -/
+def exSchedule : List Label :=
+  [.call false false 100, .hdrGot, .blockInit, .thrInitEnter, .rowIter .enter, .rowDone, .rowOk, .memUpdate, .getThread,
+   .assign, .startThr, .enablePartial, .copyIn 8 false, .tell, .rowIter .enter, .rowDone, .rowOk,
+   .hdrGot, .blockInit, .thrInitEnter, .rowIter .enter, .rowDone, .rowOk, .memUpdate, .getThread, .assign, .startThr,
+   .enablePartial, .copyIn 4 true, .tell,
+   .wLoop 0 .enter, .wLoop 1 .enter]
+
+example : ∃ s, Reachable exCfg exBlocks s ∧ s.queue.length = 2 ∧ s.workers.length = 2 ∧
+    (getW s 0).st = .run ∧ (getW s 1).st = .run ∧ exitCode s = none := by
+  have h : (run (init exCfg exBlocks) exSchedule).isSome = true := by decide
+  match hr : run (init exCfg exBlocks) exSchedule, h with
+  | some s, _ =>
+    refine ⟨s, reachable_of_run exSchedule Reachable.init hr, ?_⟩
+    have e : some s = run (init exCfg exBlocks) exSchedule := hr.symm
+    have : (run (init exCfg exBlocks) exSchedule).map (fun s => (s.queue.length, s.workers.length, (getW s 0).st, (getW s 1).st, exitCode s))
+        = some (2, 2, .run, .run, none) := by decide
+    rw [← e] at this
+    simp only [Option.map_some, Option.some.injEq, Prod.mk.injEq] at this
+    exact this
+
+/-- The same input decoded to the end under one schedule: the model returns LZMA_STREAM_END with all five bytes. -/
+def exScheduleEnd : List Label :=
+  exSchedule ++
+  [.wDecode 0 8 3 true, .wFin1 0, .wFin2 0, .wFin3 0, .wDecode 1 4 2 true, .wFin1 1, .wFin2 1, .wFin3 1,
+   .rowIter .enter, .rowDone, .rowOk, .hdrGot, .indexStep false, .rowIter .enter, .rowDone, .rowOk, .indexStep true, .ret]
+
+example : (run (init exCfg exBlocks) exScheduleEnd).map (fun s => (s.returned, s.delivered)) = some (some END, [1, 2, 3, 4, 5]) := by
+  decide
+
+example : stRun exBlocks = ([1, 2, 3, 4, 5], END) := by decide
+
 end XzVerif.C07
